@@ -418,11 +418,18 @@ def plain_name_cases(draw):
     form = draw(st.sampled_from(["rule", "rule", "layer"]))
     if form == "rule":
         slot = draw(st.sampled_from(["subject", "object", "subject-batch", "object-batch", "subject-regex", "object-regex",
-                                     "subject-partial-batch", "object-partial-batch"]))
+                                     "subject-partial-batch", "object-partial-batch", "subject-regex-batch", "object-regex-batch"]))
         kind = draw(st.sampled_from(["named", "sub"]))
         v, d, e = draw(st.sampled_from(RS.SHAPES))
         anything = slot.startswith("subject") and draw(st.integers(0, 3)) == 0
-        if slot.endswith("regex"):
+        if slot.endswith("regex-batch"):
+            # a list of regular expressions, written with plain dots as users do; the one for the absent name matches nothing
+            esc = draw(st.booleans())
+            rxs = [(re.escape(n) if esc else n) + draw(st.sampled_from(["$", ""])) for n in existing] + [(re.escape(absent) if esc else absent) + draw(st.sampled_from(["$", ""]))]
+            if any(re.match(rxs[-1], m) for m in flat):
+                rxs[-1] = re.escape(absent) + "$"
+            bad_side = {"kind": "regex-batch", "names": list(draw(st.permutations(rxs)))}
+        elif slot.endswith("regex"):
             bad_side = {"kind": "regex", "names": [re.escape(absent) + "$"]}
         elif slot.endswith("partial-batch"):
             # several partial names in one call; exactly one of them matches nothing (its position varies)
